@@ -30,6 +30,19 @@ class CtorSite:
 _OBSERVER_ROOTS = ("logging", "logger", "log", "_logger", "_log", "print")
 
 
+def is_alias_binding(st):
+    """`mesh = self.mesh`, `region = self.mesh.region`: a local name for an attribute chain of a plain name - no computation,
+    no effect, no refusal; where a rule counts the top-level statements of a function it is not one of them"""
+    if not (isinstance(st, ast.Assign) and len(st.targets) == 1 and isinstance(st.targets[0], ast.Name)):
+        return False
+    x = st.value
+    if not isinstance(x, ast.Attribute):
+        return False
+    while isinstance(x, ast.Attribute):
+        x = x.value
+    return isinstance(x, ast.Name)
+
+
 def is_observer(st):
     """an expression statement that only reports: `logging.debug(...)`, `logging.getLogger(..).info(...)`, `logger.warning(...)`,
     `print(...)`"""
@@ -73,7 +86,7 @@ class FV:
         self._full_body = body_nodoc(self.f.node)
         # what the rules look at: the statements without pure observers (logging / print calls) - an added log line is not a
         # computation, an effect on the objects or a refusal, and no property speaks about it
-        self.body = [s_ for s_ in self._full_body if not is_observer(s_)]
+        self.body = [s_ for s_ in self._full_body if not is_observer(s_) and not is_alias_binding(s_)]
         self._owner = None
 
     # ------------------------------------------------------------------ basics
